@@ -4,7 +4,8 @@
     reported code naming a rule the input really breaks."
 
    read / validate : Model/Validation.v (the code as written); violates : Spec/Rules.v (the documentation page, readings R1-R9);
-   known : Spec/Rules.v (ten structural deviation classes K1..K10, each one a finding with a witness below);
+   known : Spec/Rules.v (seven structural deviation classes K4..K10, each one a finding with a witness below; K1, K2, K3 were
+   repaired in /repo by c324ed4, d5aa3e7, 89050ae and are covered by the theorems now);
    gen_* : Generated/RuleTable.v (re-extracted from the Rust sources and the documentation page on every run).
    The unrestricted statements
         forall d, read d <> RPanic
@@ -65,17 +66,15 @@ Theorem C10_nonvacuous_rejected : exists d, known d = false /\ read d = RErr [11
 Proof. exact nonvacuous_err_l. Qed.
 
 (* ---- the unrestricted clauses fail: one witness per known class ---- *)
-(* K1  three time windows, the first two overlap: accepted although E1103 is broken (windows(2).any) *)
-Theorem C10_accept_iff_K1_refuted : exists d, k1_three_windows d = true /\ read d = ROk /\ violates 1103 d = true.
-Proof. exists w_k1. exact k1_witness. Qed.
-(* K2  service task with an inverted window: accepted although E1103 is broken; with an unparsable time: panic in job_reader *)
-Theorem C10_accept_iff_K2_refuted : exists d, k2_unchecked_task_times d = true /\ read d = ROk /\ violates 1103 d = true.
-Proof. exists w_k2_accept. exact k2_witness_accept. Qed.
-Theorem C10_read_total_K2_refuted : exists d, k2_unchecked_task_times d = true /\ validate d = VOk /\ read d = RPanic.
-Proof. exists w_k2_panic. exact k2_witness_panic. Qed.
-(* K3  required offset break + unparsable shift start: the validation itself panics (check_e1303 -> parse_time) *)
-Theorem C10_read_total_K3_refuted : exists d, k3_offset_break_bad_start d = true /\ validate d = VPanic /\ read d = RPanic.
-Proof. exists w_k3. exact k3_witness. Qed.
+(* K1 (windows(2).any), K2 (E1103 skipped replacement/service tasks), K3 (check_e1303 -> panicking parse_time): repaired in /repo;
+   the `_refuted` witnesses C10_accept_iff_K1_refuted, C10_accept_iff_K2_refuted, C10_read_total_K2_refuted, C10_read_total_K3_refuted
+   no longer hold and were removed.  Their documents are outside `known` now and are rejected with the right codes: *)
+Theorem C10_fixed_K1_K2_K3_regression :
+  known w_k1 = false /\ read w_k1 = RErr [1103]
+  /\ known w_k2_accept = false /\ read w_k2_accept = RErr [1103]
+  /\ known w_k2_panic = false /\ read w_k2_panic = RErr [1103]
+  /\ known w_k3 = false /\ read w_k3 = RErr [1302; 1303; 1307].
+Proof. exact fixed_regression_l. Qed.
 (* K4..K7, K9: documents that break no documented rule, pass validation and panic in the reader *)
 Theorem C10_read_total_K4_refuted : exists d, k4_start_latest_bad d = true /\ breaks_no_rule d /\ validate d = VOk /\ read d = RPanic.
 Proof. exists w_k4. exact k4_witness. Qed.
